@@ -56,7 +56,7 @@ fn run_eval(t: &mut Toks) -> Option<String> {
     let d = EnvDesc::parse(t)?; let e = t.expr()?;
     let env = RecEnv::new(d.build()?);
     let r = execute(&env, &e);
-    Some(format!("{} ; {}", show_res(&r), env.trace()))
+    Some(format!("{} ; {}{}", show_res(&r), env.trace(), env.native_law(&d)))
 }
 
 /// `env <ops>`: one answer per op, joined by " , "
@@ -70,6 +70,8 @@ fn run_env(t: &mut Toks) -> Option<String> {
             "cv" => { env.clear_variables(); "-".into() }
             "af" => { let d = parse_fn(t)?; env.add_function(mk_fn(&d)?); "-".into() }
             "afs" => { let k = t.usize()?; let mut fs = vec![]; for _ in 0..k { let d = parse_fn(t)?; fs.push(mk_fn(&d)?); } env.add_functions(fs); "-".into() }
+            // extend_environment; the k function descriptions that follow tell the MODEL what the standard library registers (ignored here)
+            "ext" => { let k = t.usize()?; for _ in 0..k { parse_fn(t)?; } slac::stdlib::extend_environment(&mut env); "-".to_string() }
             "rf" => { let n = t.name()?; match env.remove_function(&n) { Some(f) => format!("some {}", show_fn(&f)), None => "none".into() } }
             "gv" => { let n = t.name()?; match env.variable(&n) { Some(v) => format!("some {}", show(&v)), None => "none".into() } }
             "ve" => { let n = t.name()?; tf(env.variable_exists(&n)).to_string() }
@@ -101,7 +103,8 @@ fn mk_fn(f: &FnDesc) -> Option<slac::function::Function> {
 fn show_fn(f: &slac::function::Function) -> String {
     use slac::function::Arity;
     let a = match f.arity { Arity::Polyadic { required, optional } => format!("P{}+{}", required, optional), Arity::Variadic => "V".into(), Arity::None => "N".into() };
-    format!("{}:{}:{}:{}", hex(&f.name), a, if f.pure { 1 } else { 0 }, f.params)
+    let beh = if BEHAVIOURS.contains(&f.params.as_str()) { f.params.clone() } else { format!("b:{}", f.name) };
+    format!("{}:{}:{}:{}", hex(&f.name), a, if f.pure { 1 } else { 0 }, beh)
 }
 
 #[allow(dead_code)]
